@@ -20,6 +20,22 @@ BUILT = {
         'and array-equals-map-of-scalar are proved per path for array shapes '
         '1-3 with symbolic entries.',
    note=BASE_NOTE + '; array lengths enumerated 1-3 (values symbolic)'),
+ 'C20': dict(level='proof', sec='4/C20',
+   text='Ideal gas: every solve-for is proved to satisfy PV=nRT and each of the 12 back-substitutions '
+        'returns the original state for all positive states; van der Waals: get_P/get_T are proved to be the '
+        'vdW equation, the coefficient list handed to np.roots is proved to be the vdW cubic (every real root, '
+        'hence the selected one, satisfies get_P/get_T round trips), V = n Vm, the low-density bound '
+        '|P_vdW - P_ig| Vm^2 <= 2RTb + a, critical constants and from_critical round trips.',
+   note=BASE_NOTE + '; np.roots returns all complex roots (assumed contract); which real root is '
+        'selected (max/min) is covered by a labelled bounded check only'),
+ 'C12': dict(level='proof', sec='4/C12',
+   text='Generated from the live dict literals: for every ordered pair of units of one quantity type and symbolic num, '
+        'inverse/reflexive/proportional (affine for temperatures) and transitivity through every third unit; every '
+        'cross-type pair refused; definition relations (area/volume powers, L atm, per-mol families, R, kB, h, c, P0, T0, '
+        'V0, m_e, m_p, R = kB NA) with a tolerance derived from the significant digits of the literals; spectroscopic '
+        'helpers mutually inverse and triangle-consistent; element tables agree by symbol and atomic number; molar mass '
+        'is the count-weighted sum.',
+   note=BASE_NOTE + '; tolerance rule for definition checks: 1.5 x sum of half-units-in-the-last-place of the literals, floor 1e-7'),
 }
 REASON_PENDING = 'check not built yet (build phase in progress; see DESIGN.md section 10)'
 checks = []
